@@ -18,8 +18,10 @@ RULE = ("case = (BUF, input bytes, delivery schedule, script). Inputs from the t
         "tuples, read_vec, read_line(s), is_eof. Every case is also replayed by the harness under the one-big-read schedule and "
         "through an independent tokenizer; a difference is marked in the view. The spec (S) and the view constrain only the "
         "in-domain prefix of a script (valid integer tokens in range, no token/char read when nothing is left); ` ~` marks that "
-        "later operations are outside the property's domain: their results are compared with the model (raw) but are never a "
-        "counterexample. non-trivial = distinct case with a non-empty in-domain prefix whose schedule splits the input into at "
+        "later operations are outside the property's domain: they are not compared on that line; every case of the out-of-domain "
+        "stream has a twin line (header flag `full`, `S any`) on which all results of model and implementation are compared and "
+        "differences are only counted. The buffer size comes from the source text when an anchor matches, else from the running "
+        "code (coverage.extracted_params.buf_source). non-trivial = distinct case with a non-empty in-domain prefix whose schedule splits the input into at "
         "least two reads or contains an Interrupted event")
 ASSUMPTIONS = [
     "the Lean model of rlib_io::Reader is hand-written; it is tied to the code by running both on the same (input, schedule, script) cases",
